@@ -267,6 +267,9 @@ func VerifH_registry() {
 				hds = cur.handlers[me.name]
 			}
 			vfCheck(len(hds) == want, "the number of backends registered for a method differs from the live set")
+			for _, h := range hds {
+				vfCheck(h != nil && h.method == me.name, "a method's backend list holds a handler of ANOTHER method (requests would reach the wrong method)")
+			}
 			for _, old := range dropped {
 				for _, oh := range old {
 					for _, h := range hds {
